@@ -1,11 +1,13 @@
 package mem
 
 import (
+	"context"
 	"net"
 	"sync"
 	"time"
 
 	"github.com/plgd-dev/go-coap/v3/message/pool"
+	coapNet "github.com/plgd-dev/go-coap/v3/net"
 	"github.com/plgd-dev/go-coap/v3/tcp"
 	"github.com/plgd-dev/go-coap/v3/tcp/client"
 	"github.com/plgd-dev/go-coap/v3/tcp/coder"
@@ -136,4 +138,49 @@ func NewTCPConn(o TCPOpts) (*client.Conn, *TCPPeer, error) {
 		return nil, nil, err
 	}
 	return cc, peer, nil
+}
+
+// NewTCPPeer wraps the harness end of a stream (e.g. of a net.Pipe whose other end was handed to a server's
+// listener) and starts the collector goroutine.
+func NewTCPPeer(c net.Conn) *TCPPeer {
+	p := &TCPPeer{Conn: c, done: make(chan struct{})}
+	go p.reader()
+	return p
+}
+
+// AddrConn is a net.Conn with chosen addresses (net.Pipe ends all call themselves "pipe"; servers key their connection
+// tables by the remote address).
+type AddrConn struct {
+	net.Conn
+	Local, Remote net.Addr
+}
+
+func (c *AddrConn) LocalAddr() net.Addr  { return c.Local }
+func (c *AddrConn) RemoteAddr() net.Addr { return c.Remote }
+
+// Listener is an in-memory listener for tcp/server and dtls/server: connections pushed with Push are accepted in order.
+type Listener struct {
+	ch     chan net.Conn
+	closed chan struct{}
+	once   sync.Once
+}
+
+func NewListener() *Listener { return &Listener{ch: make(chan net.Conn, 16), closed: make(chan struct{})} }
+
+func (l *Listener) Push(c net.Conn) { l.ch <- c }
+
+func (l *Listener) AcceptWithContext(ctx context.Context) (net.Conn, error) {
+	select {
+	case c := <-l.ch:
+		return c, nil
+	case <-ctx.Done():
+		return nil, ctx.Err()
+	case <-l.closed:
+		return nil, coapNet.ErrListenerIsClosed
+	}
+}
+
+func (l *Listener) Close() error {
+	l.once.Do(func() { close(l.closed) })
+	return nil
 }
